@@ -20,6 +20,21 @@ solution* computed in exact rational arithmetic from the specification of the sy
 ``|impl - exact| <= 2^-30 * max(1, |exact|)`` for every entry (rounded stream: the linear solvers
 are iterative), shapes must match, no exception.
 
+Round-2 strengthening (see notes/C07.md):
+* badly scaled but well-conditioned data: the variables of a generated system are rescaled by exact
+  powers of two (``exps``: design inputs, pure functions and the block of coupled variables get
+  exponents in {-k, 0, +k}, k up to 45); the rescaled system is again an exact dyadic system whose
+  total derivatives are the rescaled ones, and every entry is compared with a bound RELATIVE to the
+  natural scale ``2^(e_f - e_x)`` of its block; "sweep" cases run one request through every
+  (mode, matrix type, LU) combination;
+* histories: the same MDA linearized again (same point / another point, added differentiated
+  outputs), a second MDA built on the same discipline instances (simple and full memory caches),
+  disciplines returning SciPy CSR/CSC/COO arrays and matrices, dense arrays or operators, possibly
+  restricted to the requested blocks; after every step the disciplines' own Jacobians
+  (``discipline.jac`` and the Jacobians held by their caches) must still be their exact partials;
+* every step runs under a deterministic work limit (number of linear-operator applications,
+  harness/c07_limits.py): a solve that does not return is an oracle failure with the case as replay.
+
 Correspondence with the Lean model (Driver/C07.lean):
 * exact stream — ``JacobianAssembly.assemble_jacobian`` (sparse matrix, and linear operator
   applied to the canonical basis with ``matvec`` and ``rmatvec``) for random function/variable
@@ -34,6 +49,7 @@ import itertools
 import json
 import math
 import os
+import time
 from fractions import Fraction
 from typing import Any
 
@@ -43,9 +59,18 @@ from harness import common
 from harness.common import F
 from harness.common import Result
 from harness.common import rat
+from harness.c07_limits import WallClockSkip
+from harness.c07_limits import WorkLimit
+from harness.c07_limits import work_limit
 
 PID = "C07"
 BOUND = Fraction(1, 2**30)
+# Deterministic work limit of one step (operator applications, harness/c07_limits.py).  The
+# unchanged code needs at most a few hundred (measured maximum printed in the evidence as
+# `max_operator_applications_per_step`); see notes/C07.md.
+WORK_LIMIT = 40000
+CASE_WALL_S = 300.0  # wall-clock guard of one step: the case is skipped (never judged)
+MAX_EXP = 48
 
 TRUSTED_EXTRA = (
     "C07: SciPy's iterative solvers / SuperLU return a solution of the system they are given (assumed; the "
@@ -54,11 +79,17 @@ TRUSTED_EXTRA = (
     "C07: matrix-free products (AssembledJacobianOperator, JacobianOperator algebra) are validated by the exact "
     "correspondence on the canonical basis, not proved",
     "C07: harness systems are linear, so the partial Jacobians do not depend on the MDA's converged point",
+    "C07: multiplication of a double by 2^k (|k| <= 96, no underflow/overflow on the generated data) is exact, so "
+    "the rescaled systems have exactly the partial derivatives the oracle uses",
+    "C07: the work limit counts SciPy LinearOperator applications (monkey-patched counter in the harness process "
+    "only); a hang that performs no operator application ends in the global time-out (exit 2)",
 )
 
 SOLVERS = ("DEFAULT", "LGMRES", "GMRES", "BICG", "BICGSTAB", "GCROT", "TFQMR", "CGS")
 MODES = ("direct", "adjoint", "auto")
 MTYPES = ("matrix", "linear_operator")
+KINDS = ("dense", "operator", "csr_array", "csr_matrix", "csc_array", "csc_matrix", "coo_array", "coo_matrix")
+SWEEP = [(m, mt, lu) for m in MODES for (mt, lu) in (("matrix", False), ("matrix", True), ("linear_operator", False))]
 
 # --------------------------------------------------------------------------- exact linear algebra
 
@@ -245,6 +276,89 @@ def closed_form(system, functions, variables):
             out[(f, v)] = [row[c0 : c0 + n] for row in tot]
             c0 += n
     return out
+
+
+# --------------------------------------------------------------------------- exact rescaling of the variables
+
+
+def coupled_vars(system) -> set[str]:
+    """The variables of the residual system: couplings (produced and used), states, residuals."""
+    st = all_states(system)
+    return set(all_couplings(system)) | set(st) | set(st.values())
+
+
+def scale_system(system, exps):
+    """The system expressed in the rescaled variables ``v' = 2^exps[v] * v`` (exact, Fractions):
+    block d o / d i is multiplied by ``2^(e_o - e_i)``, the constant of ``o`` by ``2^e_o``."""
+    if not exps:
+        return system
+    w = {v: Fraction(2) ** int(exps.get(v, 0)) for v in system["sizes"]}
+    s = {"sizes": dict(system["sizes"]), "discs": []}
+    for d in system["discs"]:
+        e = {
+            "name": d["name"],
+            "ins": list(d["ins"]),
+            "outs": list(d["outs"]),
+            "A": {
+                o: {i: [[rat(Fraction(v) * w[o] / w[i]) for v in row] for row in m] for i, m in bl.items()}
+                for o, bl in d["A"].items()
+            },
+            "c": {o: [rat(Fraction(v) * w[o]) for v in vec] for o, vec in d["c"].items()},
+        }
+        if d.get("states"):
+            e["states"] = dict(d["states"])
+        s["discs"].append(e)
+    return s
+
+
+def eff_system(case):
+    """The system the implementation is run on: the (well-scaled) base system of the case in the
+    rescaled variables."""
+    return scale_system(case["system"], case.get("exps"))
+
+
+def block_scale(exps, f: str, x: str) -> Fraction:
+    """Natural scale of the block d f / d x of a rescaled system."""
+    if not exps:
+        return Fraction(1)
+    return Fraction(2) ** (int(exps.get(f, 0)) - int(exps.get(x, 0)))
+
+
+def exps_valid(system, exps) -> bool:
+    """All the variables of the residual system share one exponent (the residual Jacobian of the
+    rescaled system is the one of the base system: well conditioned), |exponent| <= MAX_EXP."""
+    if not exps:
+        return True
+    try:
+        if any(v not in system["sizes"] or abs(int(e)) > MAX_EXP or int(e) != e for v, e in exps.items()):
+            return False
+    except (TypeError, ValueError):
+        return False
+    return len({int(exps.get(v, 0)) for v in coupled_vars(system)}) <= 1
+
+
+def gen_exps(rng, system) -> dict[str, int]:
+    k = rng.pick([20, 34, 36, 40, 45, 45])
+    cv = coupled_vars(system)
+    ec = rng.pick([-k, 0, k])
+    exps = {}
+    for v in system["sizes"]:
+        e = ec if v in cv else rng.pick([-k, 0, k])  # design inputs, pure functions: their own unit
+        if e:
+            exps[v] = e
+    vals = {int(exps.get(v, 0)) for v in system["sizes"]}
+    if len(vals) < 2:
+        # everything got the same exponent: nothing is rescaled relatively; move the design inputs
+        e0 = vals.pop()
+        for v in design_inputs(system):
+            exps[v] = -k if e0 == 0 else 0
+        exps = {v: e for v, e in exps.items() if e}
+    return exps
+
+
+def scaled_exact(exact, exps):
+    """Rescaling of the exact total derivatives of the base system (cross-check of the oracle)."""
+    return {(f, x): [[v * block_scale(exps, f, x) for v in row] for row in m] for (f, x), m in exact.items()}
 
 
 # --------------------------------------------------------------------------- generation
@@ -485,21 +599,38 @@ def gen_config(rng, system, path=None) -> dict[str, Any]:
         "matrix_type": mt,
         "lu": lu,
         "solver": rng.pick(SOLVERS),
-        "kinds": [rng.pick(["dense", "dense", "sparse", "operator"]) for _ in system["discs"]],
+        "kinds": gen_kinds(rng, system),
     }
+
+
+def gen_kinds(rng, system) -> list[str]:
+    """Representation of the partial Jacobians of each discipline: 30% of the cases use one
+    sparse format for every discipline, the others mix dense / operator / sparse formats."""
+    n = len(system["discs"])
+    if rng.chance(0.3):
+        return [rng.pick(KINDS[2:])] * n
+    return [rng.pick(["dense", "dense", "operator", *KINDS[2:]]) for _ in range(n)]
+
+
+def self_coupled(system) -> bool:
+    return any(set(d["ins"]) & set(d["outs"]) for d in system["discs"])
 
 
 # --------------------------------------------------------------------------- implementation
 
 
-def build_disciplines(system, kinds=None):
+def build_disciplines(system, kinds=None, restrict=False, cache="simple"):
     from harness.c07_disc import LinDisc
 
     discs = []
     for k, spec in enumerate(system["discs"]):
         s = dict(spec)
         s["kind"] = (kinds or ["dense"] * len(system["discs"]))[k]
-        discs.append(LinDisc(s, system["sizes"]))
+        s["restrict"] = bool(restrict)
+        d = LinDisc(s, system["sizes"])
+        if cache == "memory_full":
+            d.set_cache(d.CacheType.MEMORY_FULL)
+        discs.append(d)
     return discs
 
 
@@ -516,41 +647,120 @@ def _to_rows(m) -> list[list[float]]:
     return a.tolist()
 
 
-def run_mda(system, request, cfg) -> dict[str, Any]:
-    """mda.linearize on a fresh MDA; returns {"jac": {(f, x): rows}} or {"exc": ...}."""
+def _reraise_machinery(e: BaseException) -> None:
+    """The global alarm of ./check (class `Timeout`) is not an observation of the code under test."""
+    if type(e).__name__ == "Timeout":
+        raise e
+
+
+def _store(discs) -> dict[str, Any]:
+    """The disciplines' own Jacobians after a step: `discipline.jac` and the Jacobians held by the
+    entries of their caches (operands of the assembly: they must not be modified by it)."""
+    out = {"jac": {}, "cache": {}}
+    for d in discs:
+        try:
+            for o, row in (d.jac or {}).items():
+                for i, m in row.items():
+                    out["jac"][(o, i)] = _to_rows(m)
+            if d.cache is not None:
+                for n, entry in enumerate(d.cache):
+                    for o, row in (entry.jacobian or {}).items():
+                        for i, m in row.items():
+                            out["cache"][(o, i, n)] = _to_rows(m)
+        except Exception as e:  # noqa: BLE001
+            _reraise_machinery(e)
+            out["exc"] = f"{d.name}: {e!r}"[:200]
+    return out
+
+
+def _guarded(fun, solver="") -> dict[str, Any]:
+    """Run one step of the implementation under the work limit; exceptions are observations."""
+    try:
+        with work_limit(WORK_LIMIT, CASE_WALL_S, "lanczos-type" if solver in LANCZOS else "gmres-type"):
+            return fun()
+    except WorkLimit:
+        return {"exc": "work-limit", "msg": f"more than {WORK_LIMIT} linear-operator applications"}
+    except WallClockSkip:
+        return {"skip": "wall-clock"}
+    except Exception as e:  # noqa: BLE001
+        _reraise_machinery(e)
+        return {"exc": common.exc_class(e), "msg": repr(e)[:300]}
+
+
+def _point(system, p: int) -> dict[str, Any]:
+    if not p:
+        return {}
+    return {x: np.full(system["sizes"][x], 0.25 * p) for x in design_inputs(system)}
+
+
+def make_mda(path, discs, cfg):
     from gemseo.mda.gauss_seidel import MDAGaussSeidel
     from gemseo.mda.jacobi import MDAJacobi
     from gemseo.mda.mda_chain import MDAChain
     from gemseo.mda.newton_raphson import MDANewtonRaphson
 
-    discs = build_disciplines(system, cfg.get("kinds"))
-    path = cfg["path"]
     kw = {"tolerance": 1e-14, "max_mda_iter": 200, "use_lu_fact": bool(cfg["lu"]), "linear_solver": cfg["solver"]}
-    try:
-        if path == "MDAJacobi":
-            mda = MDAJacobi(discs, **kw)
-        elif path == "MDAGaussSeidel":
-            mda = MDAGaussSeidel(discs, **kw)
-        elif path == "MDANewtonRaphson":
-            mda = MDANewtonRaphson(discs, **kw)
-        elif path == "MDAChain":
-            mda = MDAChain(discs, chain_linearize=False, **kw)
-        elif path == "MDAChainLin":
-            mda = MDAChain(discs, chain_linearize=True, **kw)
-        else:
-            raise ValueError(path)
-        mda.linearization_mode = cfg["mode"]
-        mda.matrix_type = cfg["matrix_type"]
-        if path.startswith("MDAChain"):
-            for sub in mda.inner_mdas:
-                sub.linearization_mode = cfg["mode"]
-                sub.matrix_type = cfg["matrix_type"]
-        mda.add_differentiated_inputs(request["variables"])
-        mda.add_differentiated_outputs(request["functions"])
-        jac = mda.linearize()
-        return {"jac": _collect(jac, request)}
-    except Exception as e:  # noqa: BLE001
-        return {"exc": common.exc_class(e), "msg": repr(e)[:300]}
+    if path == "MDAJacobi":
+        return MDAJacobi(discs, **kw)
+    if path == "MDAGaussSeidel":
+        return MDAGaussSeidel(discs, **kw)
+    if path == "MDANewtonRaphson":
+        return MDANewtonRaphson(discs, **kw)
+    if path == "MDAChain":
+        return MDAChain(discs, chain_linearize=False, **kw)
+    if path == "MDAChainLin":
+        return MDAChain(discs, chain_linearize=True, **kw)
+    raise ValueError(path)
+
+
+class MdaSession:
+    """The MDA linearizations of one case.
+
+    reuse = "fresh": a new MDA on new discipline instances for every step (no history);
+    reuse = "mda":   ONE MDA linearized at every step: the differentiated inputs/outputs of the step
+                     are added to those of the previous steps (the steps of such a case are cumulative),
+                     at the point of the step; the LU option and the solver are those of the first step;
+    reuse = "discs": a new MDA for every step (class given by the step) built on the SAME discipline
+                     instances (their caches and last Jacobians are those left by the previous steps).
+    """
+
+    def __init__(self, case) -> None:
+        self.case = case
+        self.system = eff_system(case)
+        self.reuse = case.get("reuse", "fresh")
+        self.discs = None
+        self.mda = None
+
+    def _new_discs(self):
+        c = self.case
+        return build_disciplines(self.system, c.get("kinds"), c.get("restrict", False), c.get("cache", "simple"))
+
+    def step(self, st) -> dict[str, Any]:
+        cfg = step_cfg(self.case, st)
+        path = st.get("path", self.case["path"])
+
+        def fun():
+            if self.reuse == "fresh" or self.discs is None:
+                self.discs = self._new_discs()
+                self.mda = None
+            if self.reuse != "mda" or self.mda is None:
+                self.mda = make_mda(path, self.discs, cfg)
+            mda = self.mda
+            mda.linearization_mode = cfg["mode"]
+            mda.matrix_type = cfg["matrix_type"]
+            if path.startswith("MDAChain"):
+                for sub in mda.inner_mdas:
+                    sub.linearization_mode = cfg["mode"]
+                    sub.matrix_type = cfg["matrix_type"]
+            mda.add_differentiated_inputs(st["variables"])
+            mda.add_differentiated_outputs(st["functions"])
+            jac = mda.linearize(_point(self.system, st.get("point", 0)))
+            return {"jac": _collect(jac, st)}
+
+        obs = _guarded(fun, cfg["solver"])
+        if self.discs is not None and "skip" not in obs:
+            obs["store"] = _store(self.discs)
+        return obs
 
 
 def _collect(jac, request):
@@ -564,12 +774,12 @@ def _collect(jac, request):
 class AssemblySession:
     """One JacobianAssembly used for several successive total_derivatives requests."""
 
-    def __init__(self, system, kinds=None):
+    def __init__(self, system, kinds=None, restrict=False, cache="simple"):
         from gemseo.core.coupling_structure import CouplingStructure
         from gemseo.core.derivatives.jacobian_assembly import JacobianAssembly
 
         self.system = system
-        self.discs = build_disciplines(system, kinds)
+        self.discs = build_disciplines(system, kinds, restrict, cache)
         self.cs = CouplingStructure(self.discs)
         self.assembly = JacobianAssembly(self.cs)
         self.states = all_states(system)
@@ -586,7 +796,7 @@ class AssemblySession:
         return sorted(set(self.cs.all_couplings) - set(res) - set(res.values()))
 
     def total(self, request, cfg) -> dict[str, Any]:
-        try:
+        def fun():
             jac = self.assembly.total_derivatives(
                 self.in_data,
                 list(request["functions"]),
@@ -600,8 +810,11 @@ class AssemblySession:
                 rtol=1e-12,
             )
             return {"jac": _collect(jac, request)}
-        except Exception as e:  # noqa: BLE001
-            return {"exc": common.exc_class(e), "msg": repr(e)[:300]}
+
+        obs = _guarded(fun, cfg["solver"])
+        if "skip" not in obs:
+            obs["store"] = _store(self.discs)
+        return obs
 
     def assemble(self, functions, variables, is_residual: bool) -> dict[str, Any]:
         """assemble_jacobian as a matrix and as an operator (matvec / rmatvec on the canonical basis)."""
@@ -620,19 +833,24 @@ class AssemblySession:
             nr, nc = op.shape
             fwd = np.column_stack([op.matvec(e) for e in np.eye(nc)]) if nc else np.zeros((nr, 0))
             bwd = np.column_stack([op.rmatvec(e) for e in np.eye(nr)]).T if nr else np.zeros((0, nc))
-            return {"matrix": dense.tolist(), "matvec": fwd.tolist(), "rmatvec": bwd.tolist()}
+            # a second assembly after the products: the operands must not have been consumed
+            mat2 = a.assemble_jacobian(functions, variables, is_residual=is_residual)
+            return {"matrix": dense.tolist(), "matvec": fwd.tolist(), "rmatvec": bwd.tolist(),
+                    "matrix2": np.asarray(mat2.toarray(), dtype=float).tolist(), "store": _store(self.discs)}
         except Exception as e:  # noqa: BLE001
+            _reraise_machinery(e)
             return {"exc": common.exc_class(e), "msg": repr(e)[:300]}
 
 
 # --------------------------------------------------------------------------- oracle
 
 
-def close(v: float, e: Fraction) -> bool:
-    """POSITIVE assertion: finite and within the stated bound."""
+def close(v: float, e: Fraction, scale: Fraction = Fraction(1)) -> bool:
+    """POSITIVE assertion: finite and within the stated bound, relative to the natural scale of the
+    block (1 for the well-scaled systems, 2^(e_f - e_x) for the rescaled ones)."""
     if not (isinstance(v, (int, float)) and math.isfinite(v)):
         return False
-    return abs(F(v) - e) <= BOUND * max(Fraction(1), abs(e))
+    return abs(F(v) - e) <= BOUND * max(scale, abs(e))
 
 
 def resolved_mode(system, request, cfg) -> str:
@@ -643,12 +861,40 @@ def resolved_mode(system, request, cfg) -> str:
     return "direct" if nv <= nf else "adjoint"
 
 
-def oracle(system, request, cfg, obs, exact=None) -> list[tuple[str, str]]:
-    """(key, message) of every clause of the property the observation violates."""
+def store_failures(system, store) -> list[tuple[str, str]]:
+    """The disciplines' own Jacobians (`discipline.jac`, cache entries) must still be the exact
+    partial derivatives the disciplines returned: an assembly does not modify its operands."""
+    if not store:
+        return []
+    if "exc" in store:
+        return [("operand-unreadable", f"the Jacobian of a discipline cannot be read after the linearization: {store['exc']}")]
+    bad = []
+    for where in ("jac", "cache"):
+        for key, got in store[where].items():
+            o, i = key[0], key[1]
+            want = block(system, o, i) or fzeros(system["sizes"][o], system["sizes"][i])
+            if not _exact_eq(got, want):
+                bad.append((
+                    f"operand-modified:{where}",
+                    f"after the linearization the {'cached ' if where == 'cache' else ''}Jacobian d{o}/d{i} of the discipline "
+                    f"computing {o} is {got}, the discipline returned {[[str(v) for v in r] for r in want]}",
+                ))
+                break
+    return bad
+
+
+def oracle(system, request, cfg, obs, exact=None, exps=None) -> list[tuple[str, str]]:
+    """(key, message) of every clause of the property the observation violates.
+    `system` is the system the implementation was run on (rescaled when `exps` is given)."""
     exact = exact or exact_total(system)
     tag = f"{resolved_mode(system, request, cfg)}:{cfg['matrix_type']}{':lu' if cfg['lu'] else ''}"
     if all_states(system):
         tag += ":states"
+    if exps:
+        tag += ":scaled"
+    if obs.get("exc") == "work-limit":
+        return [(f"no-return:{tag}", f"the linearization did not return within the limit ({obs.get('msg')}; "
+                 "the unchanged code needs a few hundred at most)")]
     if "exc" in obs:
         return [(f"raises:{obs['exc']}:{tag}", f"linearization raised {obs.get('msg')}")]
     bad = []
@@ -657,20 +903,23 @@ def oracle(system, request, cfg, obs, exact=None) -> list[tuple[str, str]]:
         for x in request["variables"]:
             got = obs["jac"].get((f, x))
             want = exact[(f, x)]
+            scale = block_scale(exps, f, x)
             if got is None or len(got) != sizes[f] or any(len(r) != sizes[x] for r in got):
                 bad.append((f"shape:{tag}", f"d{f}/d{x}: block of shape {(sizes[f], sizes[x])} expected, got {got!r}"))
                 continue
             for a in range(sizes[f]):
                 for b in range(sizes[x]):
-                    if not close(got[a][b], want[a][b]):
+                    if not close(got[a][b], want[a][b], scale):
                         bad.append((
                             f"mismatch:{tag}",
-                            f"d{f}[{a}]/d{x}[{b}] = {got[a][b]!r}, exact value {want[a][b]} ({float(want[a][b])!r})",
+                            f"d{f}[{a}]/d{x}[{b}] = {got[a][b]!r}, exact value {want[a][b]} ({float(want[a][b])!r})"
+                            + (f", scale of the block 2^{int(exps.get(f, 0)) - int(exps.get(x, 0))}" if exps else ""),
                         ))
                         break
                 else:
                     continue
                 break
+    bad += store_failures(system, obs.get("store"))
     # one message per key
     seen, out = set(), []
     for k, m in bad:
@@ -741,26 +990,100 @@ def needs_couplings(system, request) -> bool:
 # --------------------------------------------------------------------------- cases
 
 
-def gen_case(rng, system=None) -> dict[str, Any]:
+MDA_PATHS = ("MDAJacobi", "MDAGaussSeidel", "MDAChain", "MDAChainLin", "MDANewtonRaphson")
+
+
+def _gen_connected_request(rng, system):
+    for _try in range(20):
+        req = gen_request(rng, system)
+        if connected(system, req):
+            return req
+    return None
+
+
+def _step(req, c, **extra) -> dict[str, Any]:
+    return {"functions": list(req["functions"]), "variables": list(req["variables"]), "mode": c["mode"],
+            "matrix_type": c["matrix_type"], "lu": c["lu"], "solver": c["solver"], **extra}
+
+
+def gen_case(rng, system=None, flavour=None) -> dict[str, Any]:
+    """One case.  Flavours:
+    * "plain":   successive requests on one assembly / one fresh MDA linearization (round-1 stream);
+    * "history": the same MDA linearized several times (added differentiated outputs, same or other
+                 point, other mode / matrix type) or several MDAs built on the same discipline instances;
+    * "sweep":   ONE request through every (mode, matrix type, LU) combination;
+    "history" and "sweep" cases are rescaled (`exps`) with probability 1/2 and 3/4."""
     system = system or gen_system(rng)
+    flavour = flavour or rng.pick(["plain", "history", "sweep"])
     cfg0 = gen_config(rng, system)
-    steps = []
-    n_steps = rng.pick([2, 2, 3]) if cfg0["path"] == "assembly" else 1
-    for _ in range(n_steps):
-        for _try in range(20):
-            req = gen_request(rng, system)
-            if connected(system, req):
-                break
-        else:
+    path = cfg0["path"]
+    case = {"system": system, "path": path, "kinds": cfg0["kinds"], "steps": [], "flavour": flavour}
+    if flavour == "plain":
+        n_steps = rng.pick([2, 2, 3]) if path == "assembly" else 1
+        for _ in range(n_steps):
+            req = _gen_connected_request(rng, system)
+            if req is not None:
+                case["steps"].append(_step(req, gen_config(rng, system, path)))
+        if rng.chance(0.25):
+            case["exps"] = gen_exps(rng, system)
+        return case
+    case["restrict"] = rng.chance(0.3)
+    case["cache"] = rng.pick(["simple", "simple", "memory_full"])
+    if flavour == "sweep":
+        req = _gen_connected_request(rng, system)
+        if req is not None:
+            combos = list(SWEEP)
+            rng.shuffle(combos)
+            for mode, mt, lu in combos:
+                case["steps"].append(_step(req, {"mode": mode, "matrix_type": mt, "lu": lu, "solver": rng.pick(SOLVERS)}))
+        if path != "assembly":
+            case["reuse"] = rng.pick(["fresh", "discs"])
+        if rng.chance(0.75):
+            case["exps"] = gen_exps(rng, system)
+        return case
+    # history
+    if rng.chance(0.5):
+        case["exps"] = gen_exps(rng, system)
+    if path == "assembly":
+        # successive requests on one assembly, the first one repeated at the end
+        for _ in range(rng.pick([2, 3])):
+            req = _gen_connected_request(rng, system)
+            if req is not None:
+                case["steps"].append(_step(req, gen_config(rng, system, path)))
+        if case["steps"]:
+            case["steps"].append(_step(case["steps"][0], gen_config(rng, system, path)))
+        return case
+    case["reuse"] = rng.pick(["mda", "mda", "discs"])
+    if case["reuse"] == "mda":
+        fs, vs = [], []
+        c0 = gen_config(rng, system, path)
+        pts = rng.pick([[0, 0, 0], [0, 0, 0], [0, 1, 0], [1, 1, 0]])
+        for k in range(rng.pick([2, 3])):
+            req = _gen_connected_request(rng, system)
+            if req is None:
+                continue
+            fs += [f for f in req["functions"] if f not in fs]
+            vs += [v for v in req["variables"] if v not in vs]
+            c = gen_config(rng, system, path)
+            c["lu"], c["solver"] = c0["lu"], c0["solver"]
+            if c["lu"]:
+                c["matrix_type"] = "matrix"
+            case["steps"].append(_step({"functions": fs, "variables": vs}, c, point=pts[k]))
+        return case
+    for _ in range(rng.pick([2, 3])):
+        req = _gen_connected_request(rng, system)
+        if req is None:
             continue
-        c = gen_config(rng, system, cfg0["path"])
-        steps.append({**req, "mode": c["mode"], "matrix_type": c["matrix_type"], "lu": c["lu"], "solver": c["solver"]})
-    return {"system": system, "path": cfg0["path"], "kinds": cfg0["kinds"], "steps": steps}
+        p2 = rng.pick(["MDAJacobi", "MDAGaussSeidel", "MDAChain", path])
+        if p2 == "MDAChainLin" and all_states(system):
+            p2 = "MDAChain"
+        case["steps"].append(_step(req, gen_config(rng, system, p2), path=p2))
+    return case
 
 
 def step_cfg(case, step) -> dict[str, Any]:
     return {
-        "path": case["path"],
+        "path": step.get("path", case["path"]),
         "kinds": case["kinds"],
         "mode": step["mode"],
         "matrix_type": step["matrix_type"],
@@ -771,27 +1094,32 @@ def step_cfg(case, step) -> dict[str, Any]:
 
 def run_case(case) -> list[dict[str, Any]]:
     """Observations of the real code, one per step."""
-    system = case["system"]
+    system = eff_system(case)
     obs = []
     if case["path"] == "assembly":
-        sess = AssemblySession(system, case["kinds"])
+        sess = AssemblySession(system, case["kinds"], case.get("restrict", False), case.get("cache", "simple"))
         for st in case["steps"]:
             obs.append(sess.total(st, step_cfg(case, st)))
     else:
+        sess = MdaSession(case)
         for st in case["steps"]:
-            obs.append(run_mda(system, st, step_cfg(case, st)))
+            obs.append(sess.step(st))
     return obs
 
 
-def case_failures(case, exact=None) -> list[tuple[int, str, str]]:
+def case_failures(case, exact=None, observations=None) -> list[tuple[int, str, str]]:
     """(step index, key, message) for every property clause the real code violates on the case."""
-    system = case["system"]
+    system = eff_system(case)
+    exps = case.get("exps")
     exact = exact or exact_total(system)
     out = []
-    observations = run_case(case)
+    observations = observations if observations is not None else run_case(case)
     for k, (st, ob) in enumerate(zip(case["steps"], observations)):
+        if "skip" in ob:
+            out.append((k, "probe:skipped-" + ob["skip"], "step skipped (wall-clock guard), not judged"))
+            continue
         cfg = step_cfg(case, st)
-        bad = oracle(system, st, cfg, ob, exact)
+        bad = oracle(system, st, cfg, ob, exact, exps)
         if bad and st["solver"] in LANCZOS:
             if any(key.startswith("raises:E:runtime") for key, _ in bad):
                 out.append((k, "probe:solver-breakdown", bad[0][1]))
@@ -801,7 +1129,10 @@ def case_failures(case, exact=None) -> list[tuple[int, str, str]]:
             for s2 in alt["steps"]:
                 s2["solver"] = "GMRES"
             ob2 = run_case(alt)[k]
-            bad2 = oracle(system, alt["steps"][k], step_cfg(alt, alt["steps"][k]), ob2, exact)
+            if "skip" in ob2:
+                out.append((k, "probe:skipped-" + ob2["skip"], "step skipped (wall-clock guard), not judged"))
+                continue
+            bad2 = oracle(system, alt["steps"][k], step_cfg(alt, alt["steps"][k]), ob2, exact, exps)
             if not bad2:
                 out.append((k, "probe:solver-accuracy", bad[0][1]))
                 continue
@@ -875,24 +1206,57 @@ def _valid_case(case) -> bool:
     system = case["system"]
     if not in_scope(system) or exact_total(system) is None:
         return False
+    if not exps_valid(system, case.get("exps")):
+        return False
+    if case.get("reuse", "fresh") not in ("fresh", "mda", "discs") or case.get("cache", "simple") not in ("simple", "memory_full"):
+        return False
+    if any(k not in KINDS and k != "sparse" for k in case["kinds"]):
+        return False
     prod = producers(system)
     xs = set(design_inputs(system))
     res = set(all_states(system))
+    prev = None
     for st in case["steps"]:
         if not st["functions"] or not st["variables"]:
             return False
         if any(f not in prod or f in res for f in st["functions"]) or any(x not in xs for x in st["variables"]):
             return False
+        if len(set(st["functions"])) != len(st["functions"]) or len(set(st["variables"])) != len(st["variables"]):
+            return False
         if not connected(system, st):
             return False
-    if case["path"] == "MDANewtonRaphson" and not strongly_coupled_only(system):
-        return False
-    if case["path"] == "MDAChainLin" and all_states(system):
-        return False
+        path = st.get("path", case["path"])
+        if path == "MDANewtonRaphson" and not strongly_coupled_only(system):
+            return False
+        if path == "MDAChainLin" and all_states(system):
+            return False
+        if path != "assembly" and path not in MDA_PATHS:
+            return False
+        if (path == "assembly") != (case["path"] == "assembly"):
+            return False
+        if st["lu"] and st["matrix_type"] != "matrix":
+            return False
+        if case.get("reuse") == "mda" and case["path"] != "assembly":
+            # one MDA: the differentiated inputs/outputs accumulate, LU option and solver are fixed
+            if prev is not None and not (
+                set(prev["functions"]) <= set(st["functions"]) and set(prev["variables"]) <= set(st["variables"])
+                and prev["lu"] == st["lu"] and prev["solver"] == st["solver"]
+            ):
+                return False
+            if "path" in st:
+                return False
+            prev = st
     return len(case["kinds"]) == len(system["discs"]) and bool(case["steps"])
 
 
-def shrink_case(case, key, budget=60) -> dict[str, Any]:
+def _prune_exps(case) -> None:
+    if case.get("exps"):
+        case["exps"] = {v: e for v, e in case["exps"].items() if v in case["system"]["sizes"]}
+        if not case["exps"]:
+            case.pop("exps")
+
+
+def shrink_case(case, key, budget=40) -> dict[str, Any]:
     """Greedy reduction keeping `key` among the failures (every candidate is re-validated as in-scope)."""
 
     calls = [0]
@@ -903,18 +1267,38 @@ def shrink_case(case, key, budget=60) -> dict[str, Any]:
         calls[0] += 1
         try:
             return any(k == key for _, k, _ in case_failures(c))
-        except Exception:  # noqa: BLE001
+        except Exception as e:  # noqa: BLE001
+            _reraise_machinery(e)
             return False
 
     cur = copy.deepcopy(case)
-    # 1. steps: keep a prefix ending at the failing step, then try the failing step alone
+    # 1. steps: keep a prefix ending at the failing step, then try the failing step alone, then drop
+    #    intermediate steps one at a time
     fl = [k for k, kk, _ in case_failures(cur) if kk == key]
     if fl:
         cur["steps"] = cur["steps"][: fl[0] + 1]
         alone = {**cur, "steps": [cur["steps"][-1]]}
         if len(cur["steps"]) > 1 and fails(alone):
             cur = alone
-    # 2. single function / variable in the last step
+        k = 0
+        while len(cur["steps"]) > 2 and k < len(cur["steps"]) - 1:
+            c = copy.deepcopy(cur)
+            del c["steps"][k]
+            if fails(c):
+                cur = c
+            else:
+                k += 1
+    # 2. no rescaling, simple cache, unrestricted Jacobians, fresh objects
+    for fld, val in (("exps", None), ("cache", "simple"), ("restrict", False), ("reuse", "fresh")):
+        if cur.get(fld) not in (None, val):
+            c = copy.deepcopy(cur)
+            if val is None:
+                c.pop(fld)
+            else:
+                c[fld] = val
+            if fails(c):
+                cur = c
+    # 3. single function / variable in the last step
     last = cur["steps"][-1]
     for fld in ("functions", "variables"):
         for name in list(last[fld]):
@@ -924,13 +1308,13 @@ def shrink_case(case, key, budget=60) -> dict[str, Any]:
                 if fails(c):
                     cur = c
                     last = cur["steps"][-1]
-    # 3. dense kinds, default solver
+    # 4. dense kinds, default solver
     for mod in (lambda c: c.update(kinds=["dense"] * len(c["kinds"])), lambda c: [s.update(solver="DEFAULT") for s in c["steps"]]):
         c = copy.deepcopy(cur)
         mod(c)
         if c != cur and fails(c):
             cur = c
-    # 4. drop disciplines / outputs, shrink variable sizes
+    # 5. drop disciplines / outputs, shrink variable sizes
     progress = True
     while progress and calls[0] < budget:
         progress = False
@@ -938,6 +1322,7 @@ def shrink_case(case, key, budget=60) -> dict[str, Any]:
             c = copy.deepcopy(cur)
             c["system"] = _drop_disc(cur["system"], k)
             c["kinds"] = cur["kinds"][:k] + cur["kinds"][k + 1 :]
+            _prune_exps(c)
             if fails(c):
                 cur, progress = c, True
                 break
@@ -950,6 +1335,7 @@ def shrink_case(case, key, budget=60) -> dict[str, Any]:
                     continue
                 c = copy.deepcopy(cur)
                 c["system"] = s2
+                _prune_exps(c)
                 if fails(c):
                     cur, progress = c, True
                     break
@@ -1009,7 +1395,8 @@ def _res_field(system) -> str:
     return "R=" + (",".join(f"{r}:{w}" for r, w in st.items()) if st else "[]")
 
 
-def td_line(system, step, mode=None) -> str:
+def td_line(system, step, mode=None, exps=None) -> str:
+    """`system` is the BASE system; with `exps` the model rescales the blocks itself (E= field)."""
     return " ".join([
         "td",
         mode or step["mode"],
@@ -1018,6 +1405,7 @@ def td_line(system, step, mode=None) -> str:
         "Y=auto",
         _res_field(system),
         _sizes_field(system),
+        *(["E=" + ",".join(f"{v}:{int(e)}" for v, e in exps.items())] if exps else []),
         _discs_field(system),
         *_blocks_fields(system),
     ])
@@ -1130,6 +1518,9 @@ def asm_oracle(system, a, obs) -> list[tuple[str, str]]:
     wt = [[want[i][j] for i in range(nr)] for j in range(nc)]
     if nr and nc and not _exact_eq(obs["matT"], wt):
         bad.append((f"asm-transpose:{tag}", "transpose of the assembled matrix is not the exact transpose"))
+    if "matrix2" in obs and not _exact_eq(obs["matrix2"], want):
+        bad.append((f"asm-matrix-again:{tag}", f"the matrix assembled again after the operator products {obs['matrix2']} != exact {[[str(v) for v in r] for r in want]}"))
+    bad += store_failures(system, obs.get("store"))
     return bad
 
 
@@ -1162,7 +1553,7 @@ def load_corpus() -> list[dict[str, Any]]:
     return out
 
 
-def _td_model_diff(system, step, obs, model_ans) -> str | None:
+def _td_model_diff(system, step, obs, model_ans, exps=None) -> str | None:
     m = parse_td(model_ans)
     if m is None:
         return None if "exc" in obs else f"model answered {model_ans[:60]} but the implementation returned derivatives"
@@ -1173,11 +1564,70 @@ def _td_model_diff(system, step, obs, model_ans) -> str | None:
             got, want = obs["jac"].get((f, x)), m.get((f, x))
             if want is None or got is None or len(got) != len(want) or any(len(a) != len(b) for a, b in zip(got, want)):
                 return f"d{f}/d{x}: shapes differ (impl {got}, model {want})"
+            scale = block_scale(exps, f, x)
             for ra, rb in zip(got, want):
                 for a, b in zip(ra, rb):
-                    if not close(a, b):
+                    if not close(a, b, scale):
                         return f"d{f}/d{x}: impl {a!r} model {b}"
     return None
+
+
+def _histogram(res: Result, case, system) -> None:
+    res.count(f"path={case['path']}")
+    res.count(f"flavour={case.get('flavour', 'corpus')}")
+    res.count(f"n_disc={len(system['discs'])}")
+    if all_states(system):
+        res.count("with-states")
+    sc = self_coupled(system)
+    if sc:
+        res.count("self-coupled")
+    for k in set(case["kinds"]):
+        res.count(f"kind={k}")
+    if sc and any(k not in ("dense", "operator") for k, d in zip(case["kinds"], system["discs"]) if set(d["ins"]) & set(d["outs"])):
+        res.count("self-coupled-block-sparse")
+    if case["path"] != "assembly":
+        res.count(f"reuse={case.get('reuse', 'fresh')}")
+    if len(case["steps"]) > 1 and (case["path"] == "assembly" or case.get("reuse", "fresh") != "fresh"):
+        res.count("history:several-linearizations-on-the-same-objects")
+    res.count(f"cache={case.get('cache', 'simple')}")
+    if case.get("restrict"):
+        res.count("restricted-discipline-jacobians")
+    exps = case.get("exps")
+    if exps:
+        res.count("rescaled")
+        cv = coupled_vars(system)
+        ec = next((int(exps.get(v, 0)) for v in cv), 0)
+        for st in case["steps"]:
+            cfg = step_cfg(case, st)
+            rm = resolved_mode(system, st, cfg)
+            # the regime in which an absolute threshold on a right-hand side would matter
+            small_rhs = (
+                any(ec - int(exps.get(x, 0)) <= -30 for x in st["variables"]) if rm == "direct"
+                else any(int(exps.get(f, 0)) - ec <= -30 for f in st["functions"] if f not in cv)
+            )
+            huge_rhs = (
+                any(ec - int(exps.get(x, 0)) >= 30 for x in st["variables"]) if rm == "direct"
+                else any(int(exps.get(f, 0)) - ec >= 30 for f in st["functions"] if f not in cv)
+            )
+            if small_rhs:
+                res.count(f"rescaled:tiny-rhs:{rm}{':lu' if st['lu'] else ''}")
+            if huge_rhs:
+                res.count(f"rescaled:huge-rhs:{rm}{':lu' if st['lu'] else ''}")
+    pts = [st.get("point", 0) for st in case["steps"]]
+    if case.get("reuse") == "mda":
+        res.count("history:same-mda:" + ("same-point" if len(set(pts)) == 1 else "points-change"))
+        if any(set(a["functions"]) < set(b["functions"]) for a, b in zip(case["steps"], case["steps"][1:])):
+            res.count("history:same-mda:outputs-added")
+    for st in case["steps"]:
+        cfg = step_cfg(case, st)
+        res.count(f"mode={st['mode']}->{resolved_mode(system, st, cfg)}")
+        res.count(f"matrix_type={st['matrix_type']}{'+lu' if st['lu'] else ''}")
+        res.count(f"solver={st['solver']}")
+        nf = sum(system["sizes"][f] for f in st["functions"])
+        nv = sum(system["sizes"][v] for v in st["variables"])
+        res.count("shape=" + ("square" if nf == nv else "rect"))
+        res.nontrivial(json.dumps([system["sizes"], st["functions"], st["variables"], st["mode"], st["matrix_type"], st["lu"],
+                                   sorted((exps or {}).items())], sort_keys=True))
 
 
 def check_cases(res: Result, cases: list[dict[str, Any]], use_lean: bool, in_scope_stream: bool = True) -> None:
@@ -1186,30 +1636,22 @@ def check_cases(res: Result, cases: list[dict[str, Any]], use_lean: bool, in_sco
         for ci, case in enumerate(cases):
             for si, st in enumerate(case["steps"]):
                 index.append((ci, si))
-                lines.append(td_line(case["system"], st))
+                lines.append(td_line(case["system"], st, exps=case.get("exps")))
         answers = common.run_lean_driver(PID, lines) if lines else []
     model = dict(zip(index, answers)) if use_lean else {}
     for ci, case in enumerate(cases):
-        system = case["system"]
+        base = case["system"]
+        exps = case.get("exps")
+        system = eff_system(case)
         exact = exact_total(system)
-        observations = None
-        failures = case_failures(case, exact)
-        observations = run_case(case) if use_lean else None
+        if exps and exact != scaled_exact(exact_total(base), exps):
+            raise RuntimeError("harness oracles disagree (rescaled system vs rescaled derivatives)")
+        observations = run_case(case)
+        failures = case_failures(case, exact, observations)
         res.evaluations += len(case["steps"])
-        res.count(f"path={case['path']}")
-        res.count(f"n_disc={len(system['discs'])}")
-        if all_states(system):
-            res.count("with-states")
-        for st in case["steps"]:
-            cfg = step_cfg(case, st)
-            res.count(f"mode={st['mode']}->{resolved_mode(system, st, cfg)}")
-            res.count(f"matrix_type={st['matrix_type']}{'+lu' if st['lu'] else ''}")
-            res.count(f"solver={st['solver']}")
-            nf = sum(system["sizes"][f] for f in st["functions"])
-            nv = sum(system["sizes"][v] for v in st["variables"])
-            res.count("shape=" + ("square" if nf == nv else "rect"))
-            res.nontrivial(json.dumps([system["sizes"], st["functions"], st["variables"], st["mode"], st["matrix_type"], st["lu"]], sort_keys=True))
-        res.sample({"path": case["path"], "sizes": system["sizes"], "steps": case["steps"][:1]})
+        _histogram(res, case, system)
+        res.sample({"path": case["path"], "flavour": case.get("flavour"), "sizes": system["sizes"], "exps": exps,
+                    "steps": case["steps"][:1]})
         real = [(k, key, msg) for k, key, msg in failures if not key.startswith("probe:")]
         for k, key, msg in failures:
             if key.startswith("probe:"):
@@ -1219,18 +1661,22 @@ def check_cases(res: Result, cases: list[dict[str, Any]], use_lean: bool, in_sco
                 res.count("probe:" + key.split(":")[0])
             continue
         for k, key, msg in real:
+            if any(v.kind == "oracle" and v.key == key for v in res.violations):
+                res.count("further-failure:" + key)
+                continue  # one (shrunk) replay per key
             small = shrink_case(case, key)
             fl = [(kk, m2) for _, kk, m2 in case_failures(small) if kk == key]
             res.violate(
                 "oracle", key, (fl[0][1] if fl else msg),
-                {"case": small, "failing_step": len(small["steps"]) - 1, "bound": "2^-30 * max(1,|exact|)"},
+                {"case": small, "failing_step": len(small["steps"]) - 1,
+                 "bound": "2^-30 * max(scale of the block, |exact|), scale = 2^(e_f - e_x) (1 without rescaling)"},
             )
         if use_lean:
             probe_steps = {k for k, key, _ in failures if key.startswith("probe:")}
             for si, st in enumerate(case["steps"]):
                 if si in probe_steps:
-                    continue  # SciPy break-down / inaccuracy of a Lanczos-type solver: counted, not judged
-                diff = _td_model_diff(system, st, observations[si], model[(ci, si)])
+                    continue  # SciPy break-down / inaccuracy of a Lanczos-type solver, skipped step: counted, not judged
+                diff = _td_model_diff(system, st, observations[si], model[(ci, si)], exps)
                 if diff is None:
                     res.traces_validated += 1
                     continue
@@ -1242,8 +1688,8 @@ def check_cases(res: Result, cases: list[dict[str, Any]], use_lean: bool, in_sco
                     res.violate(
                         "correspondence", "model-vs-impl:total-derivatives",
                         "total derivatives of the implementation differ from the Lean model: " + diff,
-                        {"case": case, "step": si, "protocol_line": td_line(system, st), "model": model[(ci, si)],
-                         "impl": {f"{f}:{x}": v for (f, x), v in observations[si].get("jac", {}).items()} or observations[si],
+                        {"case": case, "step": si, "protocol_line": td_line(base, st, exps=exps), "model": model[(ci, si)],
+                         "impl": {f"{f}:{x}": v for (f, x), v in observations[si].get("jac", {}).items()} or observations[si].get("exc"),
                          "correspondence": "Driver/C07.lean `td`"},
                     )
 
@@ -1270,7 +1716,7 @@ def neighbours(case):
         c = copy.deepcopy(case)
         c["steps"] = list(reversed(c["steps"]))
         yield c
-    for kind in ("dense", "sparse", "operator"):
+    for kind in ("dense", "csr_array", "csc_matrix", "coo_array", "operator"):
         c = copy.deepcopy(case)
         c["kinds"] = [kind] * len(c["kinds"])
         yield c
@@ -1278,6 +1724,29 @@ def neighbours(case):
         if path != case["path"]:
             c = copy.deepcopy(case)
             c["path"] = path
+            for st in c["steps"]:
+                st.pop("path", None)
+            if path == "assembly":
+                c.pop("reuse", None)
+            yield c
+    if case.get("exps"):
+        c = copy.deepcopy(case)
+        c.pop("exps")
+        yield c
+    elif exps_valid(case["system"], {}):
+        for k in (36, 45):
+            for sign in (-1, 1):
+                c = copy.deepcopy(case)
+                c["exps"] = {x: sign * k for x in design_inputs(case["system"])}
+                yield c
+    if case["path"] != "assembly" and case.get("reuse", "fresh") == "fresh" and len(case["steps"]) == 1:
+        # the same MDA linearized again with one more output
+        st = case["steps"][0]
+        more = [o for o in candidate_outputs(case["system"]) if o not in st["functions"]]
+        for o in more[:2]:
+            c = copy.deepcopy(case)
+            c["reuse"] = "mda"
+            c["steps"].append({**copy.deepcopy(st), "functions": [*st["functions"], o]})
             yield c
 
 
@@ -1287,7 +1756,8 @@ def search_failing_input(res: Result, case) -> bool:
             continue
         try:
             fl = [(k, key, msg) for k, key, msg in case_failures(nb) if not key.startswith("probe:")]
-        except Exception:  # noqa: BLE001
+        except Exception as e:  # noqa: BLE001
+            _reraise_machinery(e)
             continue
         if fl:
             k, key, msg = fl[0]
@@ -1311,6 +1781,8 @@ def check_asm(res: Result, items: list[tuple[dict, list[str], dict]], use_lean: 
             res.count("asm:with-diagonal-block")
         res.nontrivial(json.dumps([system["sizes"], a["functions"], a["variables"], a["is_residual"]], sort_keys=True))
         obs = run_asm(system, kinds, a)
+        for k in set(kinds):
+            res.count(f"asm:kind={k}")
         bad = asm_oracle(system, a, obs)
         for key, msg in bad:
             res.violate("oracle", key, msg[:500], {"asm": a, "system": system, "kinds": kinds})
@@ -1330,28 +1802,37 @@ def check_asm(res: Result, items: list[tuple[dict, list[str], dict]], use_lean: 
 
 
 def run(ctx) -> Result:
+    from harness import c07_limits
+
     res = Result(PID)
     res.rule = (
         "random linear coupled systems (2-4 coupled disciplines + optional pre/post disciplines, sizes 1-3, strong/"
-        "weak/self couplings, optional residual/state pair), random ordered input/output subsets, every (mode, "
-        "matrix_type, use_lu_fact, linear_solver), through MDA*.linearize and successive JacobianAssembly."
-        "total_derivatives calls; every evaluated request is non-trivial (a coupled solve is involved); distinct by "
-        "(sizes, request, mode, matrix_type, lu); plus exact assemble_jacobian requests (matrix and operator)"
+        "weak/self couplings, optional residual/state pair; partial Jacobians as dense arrays, SciPy CSR/CSC/COO arrays "
+        "and matrices or operators), optionally rescaled by exact powers of two (2^-45..2^45 on design inputs, pure "
+        "functions and on the block of coupled variables), random ordered input/output subsets, every (mode, "
+        "matrix_type, use_lu_fact, linear_solver), through MDA*.linearize (fresh MDA, the same MDA linearized again "
+        "with added outputs / at another point, several MDAs on the same discipline instances, simple and full memory "
+        "caches) and successive JacobianAssembly.total_derivatives calls; every evaluated request is non-trivial (a "
+        "coupled solve is involved); distinct by (sizes, request, mode, matrix_type, lu, exponents); plus exact "
+        "assemble_jacobian requests (matrix and operator)"
     )
     res.assumptions = [
-        "systems are linear with dyadic coefficients and a fixed-point map of max-norm <= 1/2 (well-conditioned residual Jacobian)",
-        "rounded stream: |impl - exact| <= 2^-30 * max(1, |exact|) per entry (iterative solvers, rtol 1e-12)",
+        "systems are linear with dyadic coefficients and a fixed-point map of max-norm <= 1/2 (well-conditioned residual Jacobian); "
+        "rescaled systems keep one common exponent on all the variables of the residual system, so their residual Jacobian is the same matrix",
+        "rounded stream: |impl - exact| <= 2^-30 * max(s, |exact|) per entry, s = 2^(e_f - e_x) the natural scale of the block "
+        "(1 without rescaling) (iterative solvers, rtol 1e-12)",
         "requests are connected: every requested function depends on a requested variable at the level of the discipline graph and conversely (the code raises on purpose otherwise)",
         "BICG/BICGSTAB/CGS/TFQMR: a SciPy break-down (RuntimeError) is counted, not judged; an inaccurate result is a violation only if GMRES reproduces it",
         "CG is excluded (needs a symmetric positive definite matrix, the residual Jacobian is not)",
+        f"work limit: a step may apply SciPy linear operators at most {WORK_LIMIT} times (deterministic count, not a wall-clock "
+        f"limit); a step running longer than {CASE_WALL_S:.0f} s of wall clock is skipped (counted, never judged)",
     ]
     use_lean = ctx.audit is not None or os.environ.get("C07_FORCE_LEAN") == "1"
     rng = ctx.rng
     corpus = load_corpus()
     check_cases(res, [c for c in corpus if "steps" in c], use_lean)
     res.count("corpus", len(corpus))
-    n_sys = 600 if ctx.thorough else 70
-    import time
+    n_sys = 500 if ctx.thorough else 50
 
     cases, asm_items = [], []
     for _ in range(n_sys):
@@ -1365,18 +1846,23 @@ def run(ctx) -> Result:
         ex = exact_total(system)
         if cf is None or any(cf[k] != ex[k] for k in cf):
             raise RuntimeError("harness oracles disagree (closed form vs derivative of the solution)")
-        for _ in range(3):
-            cases.append(gen_case(rng, system))
+        for flavour in ("plain", "plain", "history", "sweep"):
+            cases.append(gen_case(rng, system, flavour))
         for _ in range(2):
-            asm_items.append((system, gen_config(rng, system)["kinds"], gen_asm(rng, system)))
-    cases = [c for c in cases if c["steps"]]
-    batch = 40
+            asm_items.append((system, gen_kinds(rng, system), gen_asm(rng, system)))
+    cases = [c for c in cases if c["steps"] and _valid_case(c)]
+    batch = 30
     for i in range(0, len(cases), batch):
         if time.time() > ctx.deadline:
             res.notes.append(f"deadline reached after {i} cases")
             break
         check_cases(res, cases[i : i + batch], use_lean)
+        if len([v for v in res.violations if v.kind == "oracle"]) >= 6:
+            res.notes.append(f"stopped after {i + batch} cases: 6 distinct oracle violations already have a replay")
+            break
     check_asm(res, asm_items, use_lean)
+    res.extra["max_operator_applications_per_step"] = dict(c07_limits.STATE.max_by_tag)
+    res.extra["operator_application_limit"] = WORK_LIMIT
     return res
 
 
@@ -1385,15 +1871,17 @@ def replay(path: str) -> int:
     rp = data["replay"]
     if "case" in rp and "steps" in rp["case"]:
         case = rp["case"]
-        fl = case_failures(case)
         obs = run_case(case)
-        exact = exact_total(case["system"])
+        fl = case_failures(case, observations=obs)
+        exact = exact_total(eff_system(case))
+        if case.get("exps"):
+            print("exponents of the rescaling:", case["exps"])
         for k, st in enumerate(case["steps"]):
             print(f"step {k}: {st}")
-            print("  impl :", obs[k].get("jac", obs[k]))
+            print("  impl :", obs[k].get("jac", {k2: v for k2, v in obs[k].items() if k2 != "store"}))
             print("  exact:", {f"{f}:{x}": [[str(v) for v in r] for r in exact[(f, x)]] for f in st["functions"] for x in st["variables"]})
         try:
-            print("  model:", common.run_lean_driver(PID, [td_line(case["system"], st) for st in case["steps"]]))
+            print("  model:", common.run_lean_driver(PID, [td_line(case["system"], st, exps=case.get("exps")) for st in case["steps"]]))
         except Exception as e:  # noqa: BLE001
             print("  model: (driver unavailable)", e)
         bad = [(k, key, msg) for k, key, msg in fl if not key.startswith("probe:")]
